@@ -81,7 +81,15 @@ def shard(shard_no, nshards, seed, tier, extra):
     d = common.Driver("rel", shim=True)
     for i in range(n):
         r = rng.random()
-        if r < 0.7:
+        if r < 0.15:
+            # programs whose opcodes fail all over the place (bad jumps, stack underflow) in many forked threads: the
+            # iterations that end a thread must be polled like any other
+            if rng.random() < 0.7:
+                code, feats = progs.error_storm(rng)
+            else:
+                code, feats, _ = progs.controlflow(rng, underflow_p=0.4, symbolic_p=0.2, far_p=0.0)
+            feats = set(feats) | {"failing-opcodes"}
+        elif r < 0.7:
             code, feats = progs.poll_loops(rng)
         elif r < 0.9:
             gt = layoutgen.random_ground_truth(rng, nvars=rng.randint(2, 8))
@@ -89,6 +97,8 @@ def shard(shard_no, nshards, seed, tier, extra):
         else:
             code, feats = progs.loopy(rng)
         every = rng.choice([1, 1, 2, 3, 7, 100, 1000])
+        if "failing-opcodes" in feats:
+            every = rng.choice([2, 2, 3, 3, 7, 100])
         hseed = rng.getrandbits(48)
         cfg = {"permissive": rng.random() < 0.5}
         base_req = {"op": "analyze", "code": code.hex(), "stage": "analyze", "cfg": cfg, "rand_seed": hseed}
@@ -131,7 +141,7 @@ def run(tier, seed, t0):
         PROP, tier, seed, res, "fault_enumeration",
         "programs that spend iterations in each polled loop (long straight-line code; CALLDATACOPY / CODECOPY / "
         "EXTCODECOPY / RETURNDATACOPY and CALL* return data with constant sizes 32..3000; many values, type variables, "
-        "classes and constant slots; ground-truth layouts; loops) x poll_every in {1,2,3,7,100,1000} x every poll index "
+        "classes and constant slots; ground-truth layouts; loops; control-flow programs full of failing opcodes) x poll_every in {1,2,3,7,100,1000} x every poll index "
         "k in [0,T) when T is small, otherwise the first and last 15 polls plus random ones, plus a stop point beyond "
         "the end; same hash seed for all runs of a program. distinct = (bytecode, poll_every); each has T+1 fault points",
         t0, ["'a small bounded number of further polls' is poll_every + 1 (a copy loop that is told to stop kills its "
